@@ -365,6 +365,48 @@ def replay(failure):
             return False, "action accepted but obligation is about a refused edit"
         emitted1 = list(emitted)
         detail = f"pre={_brief(S0)} post={_brief(S1)}"
+        if ob.endswith(".holds_after_two_edits") or ob.startswith("C01.second_edit_"):
+            # two-edit history: (edit | edit, undo), then a second user action
+            if inp.get("followup_after") == "undo":
+                tr.undo()
+                detail += f" undone={_brief(snapshot(tr))}"
+            inp2 = dict(inp)
+            inp2["action"], inp2["args"] = inp["action2"], inp["args_2"]
+            Sa = snapshot(tr)
+            try:
+                run_action(tr, inp2)
+            except Exception as e:
+                return False, detail + f" second action {inp['action2']}{inp['args_2']} refused: {type(e).__name__}: {e}"
+            g2 = tr.graph
+            detail += f" second={inp['action2']}{inp['args_2']} final={_brief(snapshot(tr))}"
+            q = ob[:3]
+            if q == "C01":
+                Sb = snapshot(tr)
+                try:
+                    tr.undo()
+                    Sc = snapshot(tr)
+                    tr.redo()
+                    Sd = snapshot(tr)
+                except Exception as e:
+                    return ob == "C01.second_edit_inverse_applies", detail + f" inverse raised {type(e).__name__}: {e}"
+                detail += f" undone={_brief(Sc)} redone={_brief(Sd)}"
+                if ob == "C01.second_edit_undo_exact":
+                    return not (same_graph(Sa, Sc) and same_attrs(Sa, Sc)), detail
+                if ob == "C01.second_edit_redo_exact":
+                    return not (same_graph(Sb, Sd) and same_attrs(Sb, Sd)), detail
+                return False, detail
+            if q == "C03":
+                bad = (any(d > 1 for _, d in g2.in_degree()) or any(d > 2 for _, d in g2.out_degree())
+                       or any(not (g2.nodes[u][T] < g2.nodes[v][T]) for u, v in g2.edges()))
+                return bad, detail
+            if q == "C04":
+                return (not partition_ok(g2, TID, tracklet_components(g2))), detail
+            if q == "C05":
+                return (not partition_ok(g2, LID, list(nx.weakly_connected_components(g2)))), detail
+            if q == "C06":
+                ok, why = lookups_ok(tr, lineage)
+                return (not ok), detail + " " + why
+            return False, "no oracle"
         if ob == "C10.disabled_feature_untouched_by_edit":
             for n, d in raw_n0.items():
                 if n in g1:
